@@ -1,4 +1,5 @@
 import NomtModel.Store.WalkerSim
+import NomtModel.Store.WalkerAcct
 import NomtModel.Store.WalkerModel
 import NomtModel.Store.WalkerTreeRun3
 import NomtModel.Core.TriePosReach
@@ -26,6 +27,15 @@ def GUARD : String := "handle_elision_threshold: try_into().unwrap()"
 def CountersOK (sp : StackPage Node) : Prop :=
   sp.childrenLeaves.isSome = true → sp.prevChildrenLeaves.isSome = true
 
+/-- the accounting of the counters of the pages on the stack against the pages left so far -/
+def AcctInv (ps : PageSet Node) (w : Walker Node) (a : TW Node) : Prop :=
+  ∀ sp ∈ w.stack, Acct ps (a.log.map (·.1)) sp
+
+theorem AcctInv.cast {ps : PageSet Node} {w w' : Walker Node} {a a' : TW Node} (h : AcctInv ps w a)
+    (e1 : w'.stack = w.stack) (e3 : a'.log = a.log) : AcctInv ps w' a' := by
+  unfold AcctInv
+  rw [e1, e3]; exact h
+
 structure Sim (ps : PageSet Node) (w : Walker Node) (a : TW Node) : Prop where
   wf : w.position.WF
   pos : w.position.path = a.pos
@@ -40,6 +50,7 @@ structure Sim (ps : PageSet Node) (w : Walker Node) (a : TW Node) : Prop where
   outs : ∀ o ∈ w.outputPages, OutMatches H ps o a.log
   nofix : w.preFix = false
   diffs : ∀ sp ∈ w.stack, DiffOK H ps sp
+  acct : AcctInv ps w a
 
 /-- the output pages of a walker that is not a reconstructor are `UpdatedPage`s (the form the update-mode theorems use) -/
 theorem outMatches_updated {ps : PageSet Node} {w : Walker Node} {a : TW Node} (h : Sim H ps w a)
@@ -85,7 +96,13 @@ theorem sim_update_top {w : Walker Node} {a : TW Node} (h : Sim H ps w a) (top :
       simp only [List.map_cons, List.sum_cons] at this ⊢
       have e : clOf top' = clOf top := by unfold clOf; rw [hctr.2.2]
       rw [e]; exact this
-  refine ⟨h.wf, h.pos, ?_, ?_, ?_, ?_, ?_, ?_, hrecon, h.cpr, h.outs, h.nofix, ?_⟩
+  refine ⟨h.wf, h.pos, ?_, ?_, ?_, ?_, ?_, ?_, hrecon, h.cpr, h.outs, h.nofix, ?_, ?_⟩
+  rotate_right
+  · intro sp hsp
+    rcases List.mem_cons.mp hsp with e | hsp'
+    · rw [e]
+      exact (h.acct top (by rw [hst]; simp)).of_fields hid hctr.1 hctr.2.1 hctr.2.2
+    · exact h.acct sp (by rw [hst]; exact List.mem_cons_of_mem _ hsp')
   · show w.root = st' []
     rw [hroot]; exact h.root
   · constructor
